@@ -87,6 +87,15 @@ Definition swap {A} (a : list A) (i1 i2 : nat) : option (list A) :=
   | _, _ => None
   end.
 
+(* constructor: count_ = firstTest->countTests(); for (i = 0; i < count_; i++) { array[i] = current; current = current->getNext(); } *)
+Fixpoint count_tests {A} (l : list A) : nat := match l with [] => 0 | _ :: r => count_tests r + 1 end.
+Fixpoint array_fill {A} (n : nat) (cur : list A) : list A :=
+  match n with
+  | O => []
+  | S n' => match cur with [] => [] | t :: r => t :: array_fill n' r end
+  end.
+Definition pointer_array {A} (first : list A) : list A := array_fill (count_tests first) first.
+
 (* relinkTestsInOrder: for (i = 0; i < count; i++) tests = a[count - i - 1]->addTest(tests) *)
 Fixpoint relink_loop {A} (n i count : nat) (a : list A) (tests : list A) : option (list A) :=
   match n with
@@ -137,6 +146,10 @@ Definition reverse {A} (a : list A) : option (list A) :=
   | count => match reverse_loop (Nat.div2 count) 0 count a with Some a' => relink a' | None => None end
   end.
 
+(* TestRegistry::shuffleTests / reverseTests: array from the list, permute, relink, tests_ = array.getFirstTest() *)
+Definition shuffle_tests (seed : N) (rs : list N) (reg : list test) := shuffle seed rs (pointer_array reg).
+Definition reverse_tests (reg : list test) := reverse (pointer_array reg).
+
 (* ------------------------------------------------------------------ runAllTests *)
 Definition count_test (k : counters) := mkCnt (c_tests k + 1) (c_run k) (c_ign k) (c_filt k).
 Definition count_run (k : counters) := mkCnt (c_tests k) (c_run k + 1) (c_ign k) (c_filt k).
@@ -174,7 +187,7 @@ Fixpoint repeat_loop (s : scenario) (n : nat) (reg : list test) : option (list r
   match n with
   | O => Some []
   | S n' =>
-      match (if s_shuffle s then shuffle (s_seed s) (s_rands s) reg else Some (reg, [], [])) with
+      match (if s_shuffle s then shuffle_tests (s_seed s) (s_rands s) reg else Some (reg, [], [])) with
       | None => None
       | Some (reg', seeds, drawn) =>
           let '(w, k) := run_all_tests (s_gf s) (s_nf s) (s_ri s) reg' in
@@ -192,7 +205,7 @@ Definition totals (n : nat) (reps : list rep_obs) : list N :=
 
 Definition run_opt (s : scenario) : option obs :=
   let reg0 := registry_of (s_tests s) in
-  match (if s_rev s then reverse reg0 else Some reg0) with
+  match (if s_rev s then reverse_tests reg0 else Some reg0) with
   | None => None
   | Some reg1 => match repeat_loop s (s_repeat s) reg1 with
                  | Some reps => Some (mkObs reps (totals (length (s_tests s)) reps))
